@@ -214,17 +214,45 @@ def r3_close(ctx):
         ctx.check(bool(same) and bad is None and bad2 is None, R, site,
                   "each close_resource(rid) is followed by resource_ownership.remove(rid) before the next close or return (closed at most once, cannot be used again)",
                   "a closed resource can stay in the ownership map (double close / use after close)", body.loc(bi))
-        # ids closed are filtered by owner == process_id
+        # ids closed are those the ownership map assigns to the finished process AT CLEANUP TIME:
+        #  (a) the id derives from an iteration over resource_ownership filtered by `owner == process_id`, or
+        #  (b) the close is control-dependent on a lookup of the id in resource_ownership compared with process_id
         pid = [l["i"] for l in body.params() if l["ty"] == "usize"]
-        filt = [k for k in F.closures_of(body.key)]
-        okf = False
-        for ck in filt:
-            cb = F.body(ck)
-            for b3, si, s in cb.stmts():
-                if s["k"] == "assign" and s["rv"]["k"] == "bin" and s["rv"]["op"] == "Eq":
-                    okf = True
-        ctx.check(okf, R, body.key + "|owned-only", "the set of resources to close is filtered by owner == process_id",
-                  "cleanup no longer filters resources by owner", body.loc(0))
+        fln = Flow(body, through_named=True)
+        TC = ("Iterator::collect", "Iterator::filter", "Iterator::map", "Iterator::filter_map", "Iterator::cloned", "Iterator::copied", "IntoIterator::into_iter",
+              "Iterator::next", "HashMap::iter", "HashMap::keys", "Deref::deref", "Clone::clone")
+        rp = op_place(t["args"][1])
+        back = fln.backward({rp["l"]}, through_calls=TC) if rp else set()
+        from_map = False
+        filt_ok = False
+        for b3, t3 in body.calls():
+            if not t3.get("dest") or t3["dest"]["l"] not in back:
+                continue
+            c3 = t3.get("callee") or ""
+            if c3.endswith("HashMap::iter") and fl.mentions_field(fl.canon_op(t3["args"][0]) or (0, ()), "environment::Environment", "resource_ownership"):
+                from_map = True
+            if c3.endswith("Iterator::filter") and len(t3["args"]) > 1:
+                cl = op_place(t3["args"][1])
+                for _b5, _s5, st5 in body.stmts():
+                    if cl and st5["k"] == "assign" and st5["p"]["l"] == cl["l"] and st5["rv"].get("closure"):
+                        caps = [op_place(o) for o in st5["rv"].get("ops", [])]
+                        cap_pid = any(cp and pid and pid[0] in fln.backward({cp["l"]}) for cp in caps)
+                        cb = F.body(st5["rv"]["closure"])
+                        cfl = Flow(cb, through_named=True)
+                        for _b4, _s4, st in cb.stmts():
+                            if st["k"] == "assign" and st["p"]["l"] == 0 and st["rv"]["k"] == "bin" and st["rv"]["op"] == "Eq":
+                                sides = [cfl.backward({op_place(o)["l"]}) if op_place(o) else set() for o in (st["rv"]["l"], st["rv"]["r"])]
+                                if (1 in sides[0] and 2 in sides[1]) or (2 in sides[0] and 1 in sides[1]):
+                                    filt_ok = cap_pid
+        guarded = False
+        for b3, t3 in body.calls():
+            if (t3.get("callee") or "").endswith("HashMap::get") and fl.mentions_field(fl.canon_op(t3["args"][0]) or (0, ()), "environment::Environment", "resource_ownership") \
+                    and body.dominates(b3, bi) and rp and (fln.backward({op_place(t3["args"][1])["l"]}) & fln.backward({rp["l"]})):
+                guarded = True
+        okf = (from_map and filt_ok) or guarded
+        ctx.check(okf, R, body.key + "|owned-only", "the closed ids are the entries of resource_ownership whose owner == process_id at cleanup time",
+                  "the resources closed for a finished process are not (only) those resource_ownership assigns to it NOW (from_map=%s owner-filter=%s "
+                  "guarded=%s): a resource handed on to a live process can be closed under it" % (from_map, filt_ok, guarded), body.loc(bi))
     callers = sorted({k for k, _b in F.callers_of(ENV + "::cleanup_process_resources")})
     ctx.check(callers == [ENV + "::handle_process_results"], R, "callers(cleanup_process_resources)",
               "cleanup_process_resources is called only from handle_process_results", "cleanup_process_resources callers: %s" % callers)
@@ -408,8 +436,15 @@ def r7_cleanup_reach(ctx):
               "which never reaches cleanup_process_resources: its resources are never closed", hr.loc(0))
 
 
+def r8_environment_sees_everything(ctx):
+    """ownership moves (handle_deliver / handle_spawn) and cleanup (handle_process_results) happen only in the environment, so every send, spawn and
+    completion must be routed through it: shared with R-C04-7"""
+    from rules import c04
+    c04.r7_actions_forwarded(ctx, "R-C14-8")
+
+
 def run(ctx):
-    ctx.run_rules([r1_ownership_dominates_execute, r2_who_writes_ownership, r3_close, r4_classification, r5_creations_top_level, r6_transfer_before_forward, r7_cleanup_reach])
+    ctx.run_rules([r1_ownership_dominates_execute, r2_who_writes_ownership, r3_close, r4_classification, r5_creations_top_level, r6_transfer_before_forward, r7_cleanup_reach, r8_environment_sees_everything])
     return (
         "Decides structural clauses: the ownership test guards the only backend execute call (path-wise, with the violating edge reported); "
         "the ownership map has exactly three reviewed writers; close_resource has one caller, is followed by removal, and runs only for "
